@@ -997,6 +997,83 @@ fn enumerate(len: usize, alphabet: &[Op], out: &mut Vec<Vec<Op>>) {
 }
 
 // ---------------------------------------------------------------------------------------
+// the on-hold path of the work loop (user-defined rule overriding `Rule::require_content`)
+
+#[derive(Debug, Default)]
+struct NeedsContent {
+    metadata: darklua_core::rules::RuleMetadata,
+    required: std::path::PathBuf,
+    only_for: std::path::PathBuf,
+}
+
+impl darklua_core::rules::RuleConfiguration for NeedsContent {
+    fn configure(
+        &mut self,
+        _properties: darklua_core::rules::RuleProperties,
+    ) -> Result<(), darklua_core::rules::RuleConfigurationError> {
+        Ok(())
+    }
+    fn get_name(&self) -> &'static str {
+        "verif_needs_content"
+    }
+    fn serialize_to_properties(&self) -> darklua_core::rules::RuleProperties {
+        Default::default()
+    }
+    fn set_metadata(&mut self, metadata: darklua_core::rules::RuleMetadata) {
+        self.metadata = metadata;
+    }
+    fn metadata(&self) -> &darklua_core::rules::RuleMetadata {
+        &self.metadata
+    }
+}
+
+impl darklua_core::rules::Rule for NeedsContent {
+    fn process(
+        &self,
+        _block: &mut darklua_core::nodes::Block,
+        _context: &darklua_core::rules::Context,
+    ) -> darklua_core::rules::RuleProcessResult {
+        Ok(())
+    }
+    fn require_content(
+        &self,
+        current_source: &std::path::Path,
+        _current_block: &darklua_core::nodes::Block,
+    ) -> Vec<std::path::PathBuf> {
+        if current_source == self.only_for {
+            vec![self.required.clone()]
+        } else {
+            Vec::new()
+        }
+    }
+}
+
+/// Does a plain fresh run terminate within `secs` when src/a.lua is put on hold for `required`?
+/// (Runs on a detached thread: a hanging run keeps spinning until the harness exits.)
+fn on_hold_run_terminates(required: &'static str, secs: u64) -> Option<bool> {
+    let (tx, rx) = mpsc::channel::<bool>();
+    std::thread::spawn(move || {
+        let r = catch_unwind(|| {
+            let res = Resources::from_memory();
+            res.write("src/a.lua", "return 1\n").unwrap();
+            res.write("src/b.lua", "return 2\n").unwrap();
+            let rule: Box<dyn darklua_core::rules::Rule> = Box::new(NeedsContent {
+                metadata: Default::default(),
+                required: required.into(),
+                only_for: "src/a.lua".into(),
+            });
+            let cfg = Configuration::empty().with_rule(rule);
+            let _ = darklua_core::process(&res, Options::new(INPUT).with_output(OUTPUT).with_configuration(cfg));
+        });
+        let _ = tx.send(r.is_ok());
+    });
+    match rx.recv_timeout(Duration::from_secs(secs)) {
+        Ok(ok) => Some(ok),
+        Err(_) => None,
+    }
+}
+
+// ---------------------------------------------------------------------------------------
 // driver
 
 struct Finding {
@@ -1256,7 +1333,7 @@ fn main_run(report: &mut Report) {
         report.exhaustive.insert("histories of length <= 4 over the 29-op alphabet".into(), true);
         // plus a seeded slice of length 5
         let mut five = Vec::new();
-        let n5 = 150_000;
+        let n5 = 60_000;
         for _ in 0..n5 {
             let mut state = initial_state();
             let mut h = Vec::new();
@@ -1275,7 +1352,7 @@ fn main_run(report: &mut Report) {
     histories.extend(exhaustive.into_iter().map(|h| (h, false)));
 
     // ---- random histories up to length 30
-    let n_random = if report.is_thorough() { 60_000 } else { 2_500 };
+    let n_random = if report.is_thorough() { 30_000 } else { 2_500 };
     for _ in 0..n_random {
         let len = 5 + rng.below(26);
         // two thirds are steered to stay inside H10 (otherwise long histories nearly always
@@ -1415,6 +1492,52 @@ fn main_run(report: &mut Report) {
             input: json!({"history": history_json(&small), "found_as": history_json(h)}),
             failing_input_found: failing,
         });
+    }
+    // (4) the on-hold path (last, because a hanging run keeps a core busy until exit)
+    {
+        let listed = known_findings("C10").iter().any(|e| e["id"] == "F26" && e["status"] == "known");
+        // control: requiring the file itself is filtered out by apply_rules -> must terminate
+        if on_hold_run_terminates("src/a.lua", 20) != Some(true) {
+            report.notes.push("on-hold control run (self requirement) did not terminate cleanly".to_owned());
+        }
+        // requiring another work item: terminates only if that item happens to be visited first
+        let other = on_hold_run_terminates("src/b.lua", 5);
+        report.notes.push(format!("on-hold run requiring another work item: {}", match other {
+            Some(true) => "terminates",
+            Some(false) => "panics",
+            None => "does not terminate",
+        }));
+        match on_hold_run_terminates("lib/not-a-work-item.lua", if report.is_thorough() { 20 } else { 8 }) {
+            None if listed => report.known_finding(
+                "F26",
+                "a fresh run with a user-defined rule whose require_content names a path that is not a work item did not terminate (work loop: done_count is reset every pass but compared with the initial total_not_done)",
+            ),
+            None => report.violation(Violation {
+                kind: "oracle".into(),
+                check: "no-loop-on-hold".into(),
+                what: "WorkerTree::process does not terminate when a rule puts an item on hold (Rule::require_content)".into(),
+                input: json!({"rule": "require_content(src/a.lua) = [lib/not-a-work-item.lua]", "files": ["src/a.lua", "src/b.lua"]}),
+                failing_input_found: true,
+            }),
+            Some(_) => {
+                if listed {
+                    report.notes.push("F26: the on-hold run terminates now".to_owned());
+                }
+            }
+        }
+        // the model's counter logic agrees: 2 pending, pass 1 finishes 1 -> never exits; finishes 2 -> exits
+        let a = model.ask("c10.genloop 2 2 1 1 0 0 0 0");
+        let b = model.ask("c10.genloop 2 2 2");
+        if a != "false" || b != "true" {
+            report.violation(Violation {
+                kind: "correspondence".into(),
+                check: "genloop".into(),
+                what: format!("model counter logic answers {} / {} (expected false / true)", a, b),
+                input: json!({"requests": ["c10.genloop 2 2 1 1 0 0 0 0", "c10.genloop 2 2 2"]}),
+                failing_input_found: false,
+            });
+        }
+        report.count("on_hold_runs", 3);
     }
     // (3) failures inside an excluded region must be covered by a listed finding of that region
     for (region, hs) in oracle_fail.iter() {
